@@ -344,6 +344,7 @@ func e3Rules(p *Prog) *RuleSet {
 			}},
 		},
 		DynComplement: true,
+		DeriveDyn:     boundDerive,
 		Derive: []Derivation{
 			{"hashalg-safe", []Atom{"hashalg-valid"}}, {"hashalg-safe", []Atom{"hashalg-case"}},
 			{"sigalg-safe", []Atom{"sigalg-registered"}}, {"sigalg-safe", []Atom{"sigalg-case"}}, {"sigalg-safe", []Atom{"sigalg-accepted"}},
@@ -573,7 +574,91 @@ func boundFactsLE(m *Matcher, a, b ssa.Value, strict bool, name func(ssa.Value) 
 			}
 		}
 	}
-	// x (<|<=) y with y itself bounded is not tracked (no transitivity)
+	// exact constant bounds and relational facts (renamed across helper calls)
+	if cb, ok := isConst(b); ok {
+		if _, aConst := isConst(a); !aConst {
+			ub := cb
+			if strict {
+				ub--
+			}
+			out = append(out, Atom("v:ubc:"+name(a)+":"+strconv.FormatInt(ub, 10)))
+		}
+	}
+	if ca, ok := isConst(a); ok {
+		if _, bConst := isConst(b); !bConst {
+			lb := ca
+			if strict {
+				lb++
+			}
+			out = append(out, Atom("v:lbx:"+name(b)+":"+strconv.FormatInt(lb, 10)))
+		}
+	}
+	if _, aConst := isConst(a); !aConst {
+		if _, bConst := isConst(b); !bConst {
+			rel := "v:le-val:"
+			if strict {
+				rel = "v:lt-val:"
+			}
+			out = append(out, Atom(rel+name(a)+":"+name(b)))
+			if isUnsigned(a) {
+				out = append(out, Atom("v:lb0:"+name(a)))
+			}
+		}
+	}
+	return out
+}
+
+// boundDerive turns facts whose right-hand side became a number (by renaming a
+// helper's parameter to a constant argument) into the bound facts the rules use.
+func boundDerive(has func(Atom) bool, each func(func(Atom))) []Atom {
+	var out []Atom
+	each(func(a Atom) {
+		for _, pre := range []string{"v:lt-val:", "v:le-val:"} {
+			if !strings.HasPrefix(a, pre) {
+				continue
+			}
+			rest := a[len(pre):]
+			i := strings.LastIndex(rest, ":")
+			if i <= 0 {
+				continue
+			}
+			x, rhs := rest[:i], rest[i+1:]
+			if k, err := strconv.ParseInt(rhs, 10, 64); err == nil {
+				if pre == "v:lt-val:" {
+					k--
+				}
+				out = append(out, Atom("v:ubc:"+x+":"+strconv.FormatInt(k, 10)))
+			}
+			if k, err := strconv.ParseInt(x, 10, 64); err == nil {
+				// number (<|<=) y
+				if pre == "v:lt-val:" {
+					k++
+				}
+				out = append(out, Atom("v:lbx:"+rhs+":"+strconv.FormatInt(k, 10)))
+			}
+		}
+		if strings.HasPrefix(a, "v:ubc:") {
+			rest := a[len("v:ubc:"):]
+			if i := strings.LastIndex(rest, ":"); i > 0 {
+				if k, err := strconv.ParseInt(rest[i+1:], 10, 64); err == nil && k <= maxSaneBound {
+					out = append(out, Atom("v:ub:"+rest[:i]))
+				}
+			}
+		}
+		if strings.HasPrefix(a, "v:lbx:") {
+			rest := a[len("v:lbx:"):]
+			if i := strings.LastIndex(rest, ":"); i > 0 {
+				if k, err := strconv.ParseInt(rest[i+1:], 10, 64); err == nil {
+					if k >= 0 {
+						out = append(out, Atom("v:lb0:"+rest[:i]))
+					}
+					for j := int64(1); j <= k && j <= 64; j++ {
+						out = append(out, Atom("v:lbc:"+rest[:i]+":"+strconv.FormatInt(j, 10)))
+					}
+				}
+			}
+		}
+	})
 	return out
 }
 
